@@ -1,7 +1,7 @@
 (* wire decoding / encoding for the C17 correspondence run *)
 From Coq Require Import List Bool ZArith.
 From BiomV Require Import Base.Tree Base.TreeStr Base.ListUtil Base.Matrix Base.Dict Model.Table Model.Err
-  Model.Construct.
+  Model.Construct Model.UcText.
 Import ListNotations.
 
 Definition tEntry3 (t : Tree) : entry3 := (tN (tnth t 0), tN (tnth t 1), tZ (tnth t 2)).
@@ -50,14 +50,22 @@ Definition eUT (u : uc_table) : Tree :=
 
 (* [0; profile; input; oids; sids; omd; smd; type] constructor
    [1; profile; lines]                              Table.from_adjacency
-   [2; records; fasta]                              parse_uc / _from_uc (fasta: [] or [pairs]) *)
+   [2; records; fasta; lines; mode]                 parse_uc / _from_uc (fasta: [] or [pairs]) *)
 Definition run0 (t : Tree) : Tree :=
   match tZ (tnth t 0) with
   | 0%Z => eResult eTable (construct (tProfile (tnth t 1)) (tInput (tnth t 2)) (tLZ (tnth t 3)) (tLZ (tnth t 4))
                                      (tMd (tnth t 5)) (tMd (tnth t 6)) (tZ (tnth t 7)))
   | 1%Z => eResult eTable (from_adjacency (tProfile (tnth t 1)) (map tALine (tL (tnth t 2))))
-  | _ => eResult eUT (from_uc (map tURec (tL (tnth t 1)))
-                              (tOpt (fun x => map (fun kv => (tLZ (tnth kv 0), tLZ (tnth kv 1))) (tL x)) (tnth t 2)))
+  | _ =>
+      let fasta := tOpt (fun x => map (fun kv => (tLZ (tnth kv 0), tLZ (tnth kv 1))) (tL x)) (tnth t 2) in
+      let by_rec := eResult eUT (from_uc (map tURec (tL (tnth t 1))) fasta) in
+      let by_text := eResult eUT (from_uc_text (map tLZ (tL (tnth t 3))) fasta) in
+      (* [2; records; fasta; lines; mode]: mode 0 = the records are the lines (both levels of the model
+         must agree, else the marker [77] that no implementation result decodes to), 1 = text only *)
+      match tZ (tnth t 4) with
+      | 0%Z => if tree_eqb by_rec by_text then by_text else L [I 77%Z]
+      | _ => by_text
+      end
   end.
 
 (* [9; cases] : several constructor calls evaluated side by side *)
